@@ -5,11 +5,11 @@ scale=[{"set":"b2","file":"pwr/constants.go","ident":"BlockSize","value":"2"},
        {"set":"b2","file":"pwr/validator.go","func":"Validate","match":"1024","value":"2"}]
 Q=["quick","thorough"];T=["thorough"]
 H=[{"name":"H_witness","tiers":Q,"expect":"violation","bounds":"vacuity witness"}]
-dmg=[0,2,3,4,6,7,8,9,10,11]
-H.append({"name":"H_heal","tiers":Q,"scale":"b2","preemptions":0,"bounds":"B=2: build of 3 files (symbolic contents; one nested, one empty), empty dir, symlink; 12 damage shapes incl. kind swaps hiding subtrees; canonical schedule",
+dmg=[0,2,3,4,6,7,8,9,10,11,12,13,14,15]
+H.append({"name":"H_heal","tiers":Q,"scale":"b2","preemptions":0,"bounds":"B=2: build of 3 files (symbolic contents; one nested, one empty), empty dir, symlink; 16 damage shapes incl. kind swaps hiding subtrees and kind swaps of the empty file; canonical schedule",
   "param_sets":[{"nf":3,"na":0,"damage":d} for d in dmg+[5]]+[{"nf":3,"na":a,"damage":1} for a in (0,2,3,4)]})
 H.append({"name":"H_heal","tiers":Q,"scale":"b2","preemptions":1,"bounds":"the same damage shapes under every schedule of validator / wound consumer / heal worker goroutines with at most 1 preemption (file-system calls are scheduling points)",
-  "param_sets":[{"nf":2,"na":0,"damage":d,"policy":p} for d in (0,2,4,6,8,10) for p in (0,1)]})
+  "param_sets":[{"nf":2,"na":0,"damage":d,"policy":p} for d in (0,2,4,6,8,10,12,13) for p in (0,1)]})
 H.append({"name":"H_heal","tiers":Q,"scale":"b2","preemptions":1,"novalidate":True,"bounds":"a directory replaced by a symlink to a directory holding valid files (damage 5), three default scheduling policies, at most 1 preemption (natively schedule-dependent: excluded from translator validation)",
   "param_sets":[{"nf":2,"na":0,"damage":5,"policy":p} for p in (0,1,2)]})
 H.append({"name":"H_heal","tiers":T,"scale":"b2","preemptions":2,"bounds":"all damage shapes, nf in {0,3,5}, at most 2 preemptions","max_seconds":1700,
